@@ -29,6 +29,11 @@ func c11Body(r *simcore.Run) {
 	s := newSQLEnv(r, "sql-0")
 	s.mustExec("CREATE TABLE t (id INTEGER, a INTEGER, b VARCHAR[8], c INTEGER, PRIMARY KEY id)")
 	indexes := []string{"a", "b", "a, c"}
+	// a second, static table for joins
+	s.mustExec("CREATE TABLE o (id INTEGER, owner INTEGER, PRIMARY KEY id)")
+	for i := 0; i < 6; i++ {
+		s.mustExec(fmt.Sprintf("INSERT INTO o (id, owner) VALUES (%d, %d)", i, r.Intn(12)))
+	}
 	early := r.Pct(60)
 	if early {
 		for _, ix := range indexes {
@@ -154,6 +159,7 @@ func c11Group(s *sqlEnv, tx *sql.SQLTx, haveIdx bool, indexes []string, what str
 		fmt.Sprintf("a > %d", k), fmt.Sprintf("a = %d", k), fmt.Sprintf("a <= %d", k), "b = 'x'", "b >= 'xy'", "c IS NULL",
 		fmt.Sprintf("a >= %d AND c < %d", k, r.Intn(4)), fmt.Sprintf("a = %d OR b = 'y'", k), fmt.Sprintf("a IN (%d, %d)", k, (k+2)%5),
 		"b LIKE 'x.*'", fmt.Sprintf("NOT (a < %d)", k), fmt.Sprintf("a = %d AND c = %d", k, r.Intn(4)),
+		fmt.Sprintf("a >= %d AND a <= %d", k%3, k%3+2), fmt.Sprintf("a > %d AND a < %d", k%2, k%2+4),
 	}
 	p := preds[r.Intn(len(preds))]
 	base := "SELECT id, a, b, c FROM t"
@@ -202,18 +208,57 @@ func c11Group(s *sqlEnv, tx *sql.SQLTx, haveIdx bool, indexes []string, what str
 		}
 		// ORDER BY through an index vs. through a sort; output must be sorted, NULL first
 		dir := []string{"ASC", "DESC"}[r.Intn(2)]
-		ordered, ok3 := run(base + " WHERE " + p + " ORDER BY a " + dir)
+		ordCol, ordPos := "a", 1
+		if r.Bool() {
+			ordCol, ordPos = "c", 3 // not the leading column of any index
+		}
+		ordered, ok3 := run(base + " WHERE " + p + " ORDER BY " + ordCol + " " + dir)
 		if ok3 {
 			if fmt.Sprint(sortedCopy(ordered)) != fmt.Sprint(sortedCopy(ref)) {
-				r.Violation("plan-dependent", "", "%s: WHERE %s ORDER BY a %s returns %v, without ORDER BY %v", what, p, dir, ordered, ref)
+				r.Violation("plan-dependent", "", "%s: WHERE %s ORDER BY %s %s returns %v, without ORDER BY %v", what, p, ordCol, dir, ordered, ref)
 			}
 			prev := ""
 			for i, row := range ordered {
-				a := strings.Split(row, "|")[1]
+				a := strings.Split(row, "|")[ordPos]
 				if i > 0 && c11Less(a, prev, dir == "DESC") {
-					r.Violation("order-by", "", "%s: WHERE %s ORDER BY a %s is not sorted: %v", what, p, dir, ordered)
+					r.Violation("order-by", "", "%s: WHERE %s ORDER BY %s %s is not sorted: %v", what, p, ordCol, dir, ordered)
 				}
 				prev = a
+			}
+		}
+		// joins: the result equals the nested-loop join computed here from the two tables
+		jcond := []string{fmt.Sprintf("t.a = %d", k), "t.c IS NULL", fmt.Sprintf("t.a > %d", k), "o.owner > 3"}[r.Intn(4)]
+		jrows, okj := run("SELECT t.id, o.id FROM t INNER JOIN o ON t.id = o.owner AND " + jcond)
+		orows, oko := run("SELECT id, owner FROM o")
+		if okj && oko && ok0 {
+			var want []string
+			for _, tr := range all {
+				tf := strings.Split(tr, "|")
+				for _, or := range orows {
+					of := strings.Split(or, "|")
+					if tf[0] != of[1] {
+						continue
+					}
+					hold := false
+					switch {
+					case strings.HasPrefix(jcond, "t.a ="):
+						hold = tf[1] == strconv.Itoa(k)
+					case jcond == "t.c IS NULL":
+						hold = tf[3] == "NULL"
+					case strings.HasPrefix(jcond, "t.a >"):
+						v, err := strconv.Atoi(tf[1])
+						hold = err == nil && v > k
+					default:
+						v, _ := strconv.Atoi(of[1])
+						hold = v > 3
+					}
+					if hold {
+						want = append(want, tf[0]+"|"+of[0])
+					}
+				}
+			}
+			if fmt.Sprint(sortedCopy(jrows)) != fmt.Sprint(sortedCopy(want)) {
+				r.Violation("join", "", "%s: t INNER JOIN o ON t.id = o.owner AND %s returns %v, the nested-loop join of the two tables gives %v", what, jcond, sortedCopy(jrows), sortedCopy(want))
 			}
 		}
 	}
